@@ -189,6 +189,9 @@ pub trait Pv: Fc {
 
     fn verify(setup: &Setup<Self::SC>, proof: &BatchStarkProof<Self::SC>) -> Result<(), PvErr>;
 
+    /// Canonical rendering of the preprocessed commitment and its instance metadata.
+    fn commitment_string(setup: &Setup<Self::SC>) -> String;
+
     /// setup + prove + verify
     fn prove_verify(
         circuit: &Circuit<Self::EF>,
@@ -353,6 +356,21 @@ macro_rules! impl_pv {
                     Ok(Ok(p)) => Ok(p),
                     Ok(Err(e)) => Err(PvErr::Prove(format!("{e:?}"))),
                     Err(p) => Err(PvErr::ProvePanic(p)),
+                }
+            }
+
+            fn commitment_string(setup: &Setup<Self::SC>) -> String {
+                match &setup.cpd.prover_data.common.preprocessed {
+                    None => "none".to_string(),
+                    Some(g) => format!(
+                        "{}|{:?}|{:?}",
+                        serde_json::to_string(&g.commitment).unwrap_or_default(),
+                        g.instances
+                            .iter()
+                            .map(|m| m.as_ref().map(|m| (m.matrix_index, m.width, m.degree_bits)))
+                            .collect::<Vec<_>>(),
+                        g.matrix_to_instance
+                    ),
                 }
             }
 
